@@ -385,7 +385,9 @@ def run_cli(ctx, batch, case):
             return
         _, _, inrecs = sim.read_vcf(paths["vcf"])
         try:
-            _, samples, recs = sim.read_vcf(out)
+            samples, recs, n_nul = G.read_vcf_tolerant(out)
+            if n_nul:
+                ctx.observe("output VCF contains NUL bytes (--tag HP with every sample's HP missing in a record; C04/C09 finding)")
         except Exception as e:      # the output of a successful run must be a readable VCF
             ctx.fail(f"output VCF of whatshap phase cannot be parsed: {type(e).__name__}: {e}", _slim(case), key="output-vcf-unreadable")
             return
@@ -546,5 +548,22 @@ def exhaustive(ctx, batch):
                     case = {"kind": "fc", "phased": pos, "reads": [[0, r] for r in reads], "master": master, "het": None}
                     do_fc(ctx, batch, case); cnt += 1
     ctx.extra["exhaustive_structures_le_3_reads_le_4_positions"] = cnt
+    # pedigree merge rule: every set of homozygous positions x {trusted, distrust} x genetic on/off x family size 1/3
+    # over a few fixed read structures on 5 positions
+    pos = [2, 4, 7, 11, 12]
+    structures = [[[0, [2, 4]], [1, [11, 12]]], [[0, [2, 7]], [1, [4, 11]], [2, [12, 99]]], [], [[0, [2, 4, 7, 11, 12]]],
+                  [[0, [2, 12]], [1, [4, 7]], [2, [7, 11]]]]
+    cnt2 = 0
+    for reads in structures:
+        for k in range(0, 6):
+            for hom in itertools.combinations(pos + [50], k):
+                for fam in (1, 3):
+                    for genetic in (False, True):
+                        supers = [[s, [[p, (0 if p in hom else 1), (0 if p in hom and s == 0 else (1 if p in hom else 0))] for p in pos]] for s in range(fam)]
+                        for distrust in (False, True):
+                            case = {"kind": "oc", "accessible": pos, "reads": [r for r in reads if r[0] < fam], "distrust": distrust,
+                                    "fam_size": fam, "genetic": genetic, "homozygous": list(hom), "superreads": supers}
+                            do_oc(ctx, batch, case); cnt2 += 1
+    ctx.extra["exhaustive_masterblock_cases"] = cnt2
     ctx.extra["exhaustive"] = True
     batch.flush()
